@@ -465,7 +465,12 @@ void TzDevice::doQuery(int c, const Query& q, int opIndex, Verdict& v, Coverage&
     cov.cell("c08", fmt("%s|%s|%s|%s", kindName(d.kind), st, q.kind.c_str(), ac));
     bool nt = fills && sh->used && !(sh->zi == d.zi && sh->ok && sh->year == year);
     if (nt) { sawNontrivial = true; cov.count("tz.nontrivial_queries"); }
-    if (bm && fills && sh->used && sh->zi == d.zi && sh->year >= 1999 && sh->year <= 2050
+    if (bm && opts.armC09 && fills && year >= 1999 && year <= 2050 && d.zone >= 0) {
+      // device profile: which (zone, year) cache fills were monitored (pool / dropped-transition monitors)
+      size_t zbase = isExt(d.kind) ? (size_t)zonedb::kZoneRegistrySize : 0;
+      bm->set((zbase + (size_t)d.zone) * 52 + (size_t)(year - 1999));
+    }
+    if (bm && !opts.armC09 && fills && sh->used && sh->zi == d.zi && sh->year >= 1999 && sh->year <= 2050
         && year >= 1999 && year <= 2050 && d.zone >= 0) {
       size_t zbase = isExt(d.kind) ? (size_t)zonedb::kZoneRegistrySize : 0;
       bm->set(((zbase + (size_t)d.zone) * 52 + (size_t)(sh->year - 1999)) * 52 + (size_t)(year - 1999));
